@@ -107,6 +107,9 @@ type ReqSpec struct {
 	// w.(http.Hijacker), 2 through http.NewResponseController(w), and writes
 	// its answer to the connection itself (protocol upgrades, proxies).
 	Hijack int `json:"hijack,omitempty"`
+	// Trailer: the request declares a trailer whose value the server fills in
+	// when the body has been read to EOF.
+	Trailer bool `json:"trailer,omitempty"`
 	// EmptyFirst: the handler starts with a zero-length Write (commits status
 	// 200 and the headers so far); it then sets its header and writes its body
 	// without calling WriteHeader.
@@ -245,6 +248,23 @@ func (s *sink) status() int {
 
 type ctxKey struct{}
 
+// trailerBody sets the trailer value in the request's own Trailer map at EOF.
+type trailerBody struct {
+	r       io.Reader
+	trailer http.Header
+	value   string
+}
+
+func (b *trailerBody) Read(p []byte) (int, error) {
+	n, err := b.r.Read(p)
+	if err == io.EOF {
+		b.trailer.Set("X-Checksum", b.value)
+	}
+	return n, err
+}
+
+func (b *trailerBody) Close() error { return nil }
+
 func reqID(i int) string { return fmt.Sprintf("r%d", i) }
 
 func (c BatchCase) raddr(i int) string {
@@ -320,6 +340,13 @@ func checkBatch(c BatchCase) error {
 		if string(body) != "body-"+id {
 			fail("request %s read body %q", id, body)
 		}
+		if spec.Trailer {
+			// net/http fills the declared trailers into the request's Trailer
+			// map when the body reaches EOF; the handler must see its own.
+			if got := r.Trailer.Get("X-Checksum"); got != "sum-"+id {
+				fail("request %s: after reading its body to EOF the handler sees trailer X-Checksum=%q, the server delivered %q", id, got, "sum-"+id)
+			}
+		}
 		close(arrived[i])
 		<-gates[i]
 		verify("after", r, i)
@@ -387,6 +414,12 @@ func checkBatch(c BatchCase) error {
 	start := func(i int) {
 		id := reqID(i)
 		req := httptest.NewRequest("M"+id, "/p/"+id+"?q="+id, strings.NewReader("body-"+id))
+		if c.Reqs[i].Trailer {
+			// As a server does for a chunked request with "Trailer: X-Checksum":
+			// the key is declared up front, the value arrives with the body's EOF.
+			req.Trailer = http.Header{"X-Checksum": nil}
+			req.Body = &trailerBody{r: strings.NewReader("body-" + id), trailer: req.Trailer, value: "sum-" + id}
+		}
 		req.Host, req.RemoteAddr, req.RequestURI = "host-"+id, c.raddr(i), c.uri(i)
 		req.Header.Set("X-Id", id)
 		req.Header.Set("X-Idx", "i"+strconv.Itoa(i))
@@ -590,6 +623,7 @@ var batchProp = vp.Register(vp.Prop[BatchCase]{
 				Logs:    rapid.IntRange(0, 2).Draw(t, "logs"),
 				Hijack:  rapid.SampledFrom([]int{0, 0, 0, 1, 2}).Draw(t, "hijack"),
 				NoRaddr: rapid.IntRange(0, 3).Draw(t, "noraddr") == 0,
+				Trailer: rapid.IntRange(0, 3).Draw(t, "trailer") == 0,
 				NoURI:   rapid.IntRange(0, 5).Draw(t, "nouri") == 0,
 				Flushes: rapid.SampledFrom([]int{0, 0, 1, 3}).Draw(t, "flushes"),
 			})
